@@ -5,3 +5,8 @@ cd "$(dirname "$0")/harness"
 export CARGO_NET_OFFLINE=true
 cargo build --offline --release --bins 2>&1 | tail -3
 cargo build --offline --profile dbgchk --bin c08_child --bin vcheck --bin c16_scopes 2>&1 | tail -3
+cargo build --offline --profile optchk --bin c08_child 2>&1 | tail -3
+# third build: x86-64-v3 CPU level (only where the CPU has it; the checks skip it otherwise)
+if f=$(grep -m1 '^flags' /proc/cpuinfo 2>/dev/null) && ok=1 && for x in avx2 bmi1 bmi2 fma abm movbe f16c; do case " $f " in *" $x "*) ;; *) ok=0;; esac; done && [ $ok = 1 ]; then
+  RUSTFLAGS="-C target-cpu=x86-64-v3" CARGO_TARGET_DIR="$PWD/target/cpuv3" cargo build --offline --release --bin vcheck --bin c16_scopes 2>&1 | tail -3
+fi
